@@ -1,14 +1,14 @@
-SPECIFICATION Spec
+SPECIFICATION TSpec
 CONSTANTS
   MaxK = 3
-  MaxLen = 6
-  MaxRows = 2
-  MaxCols = 4
-INVARIANT TypeOK
+  MaxLen = 0
+  MaxRows = 0
+  MaxCols = 1
+CONSTRAINT Progress
 INVARIANT Complement
 INVARIANT IndexOrder
 INVARIANT Sorted
 INVARIANT Encoding
 INVARIANT RoundTrip
-INVARIANT NoStuck
+POSTCONDITION Post
 CHECK_DEADLOCK FALSE
